@@ -480,7 +480,13 @@ func (g *Gen) valOpt(v ssa.Value) (x Val, ok bool) {
 func (g *Gen) loopHead(b *ssa.BasicBlock, li *loopInfo, st *State, rname string, phiMerged map[*ssa.Phi]string) {
 	li.preSt = st.clone()
 	invs := g.con.LoopInv[li.ord]
-	if len(invs) == 0 && len(g.con.LoopDecr[li.ord]) == 0 && !g.isPlainRangeLoop(li) {
+	if g.con.ArgsOnly {
+		if g.con.LoopNoFrame == nil {
+			g.con.LoopNoFrame = map[int]bool{}
+		}
+		g.con.LoopNoFrame[li.ord] = true
+	}
+	if len(invs) == 0 && len(g.con.LoopDecr[li.ord]) == 0 && !g.isPlainRangeLoop(li) && !g.con.ArgsOnly {
 		panic(fmt.Errorf("loop %d (block %d, %s) has no invariant", li.ord, b.Index, g.posOf(firstPos(b))))
 	}
 	li.preSt = st.clone()
